@@ -214,6 +214,23 @@ CHECKS = {
              'libraries (read back with geojson / pyshp / shapely and compared coordinate-for-coordinate) is the bounded native stand-in.',
         technique='AST-generated verification conditions over the real source against callee contracts and recording stand-ins for the writer libraries, z3; bounded native write / read-back round trips',
         design_ref='Part III C15'),
+    'C12': dict(
+        category='proof',
+        text='operations.depth.ocean_floor, _find_ocean_floor_indexes, normalize_depth_variables (inline), utils.dimensions_from_coords, '
+             'extract_vars (real bodies) on symbolic datasets: every extent symbolic, depth coordinate strictly monotonic either way, '
+             'positive up / down / absent, a static sea floor wet(k, column) that is an arbitrary predicate (gaps and dry top layers '
+             'included), the depth dimension in six positions, one or two depth coordinates on one dimension, two depth dimensions '
+             'over one grid (both hash orders of the loop explored), records treated as columns when no non-spatial variable is given. '
+             'Obligations at a Skolem record / column: result = value of the wet layer of maximal physical depth, NaN when no layer is '
+             'wet; depth dimension and coordinates removed; all other variables, coordinates and attributes bit-identical; input '
+             'not modified. The cumulative-count argument uses lemma cumsum-monotone, proved by induction (base and step are '
+             'discharged obligations) and instantiated explicitly (ghost lemma calls).',
+        note=TRUST + 'Assumed: XR-CUMSUM-SKIPNA, XR-ARGMAX-FIRST, XR-ISEL-POINTWISE, XR-MERGE / XR-DROP-DIMS, PY-STR-HASH, INDUCTION-NAT (meta rule), '
+             'A-FINITE-DATA (values are finite or NaN), STATIC-FLOOR-SHARED (variables of one group share the wet pattern; the violation '
+             'of it by a gapless first variable is known finding D17, found natively). dataset.ems.ocean_floor() and byte-level values '
+             'are the bounded native stand-in.',
+        technique='AST-generated verification conditions over the real source with an inductively proved cumulative-sum lemma, z3; bounded native comparison against a per-column oracle',
+        design_ref='Part III C12'),
 }
 
 NOT_YET = 'check not built yet (work in progress, see DESIGN.md)'
